@@ -73,8 +73,10 @@ def _gen(path_key, text):
     d = os.path.join(build.cache_dir(), 'gen'); os.makedirs(d, exist_ok=True)
     p = os.path.join(d, '%s_%s.c' % (path_key, hashlib.sha1(text.encode()).hexdigest()[:10]))
     if not os.path.exists(p):
-        with open(p, 'w') as f:
+        tmp = p + '.tmp%d' % os.getpid()
+        with open(tmp, 'w') as f:
             f.write(text)
+        os.replace(tmp, p)
     return p
 
 
